@@ -585,7 +585,11 @@ type Hist struct {
 	Events   []Event
 	PolCount uint64
 	LastPol  *Built
-	att      *attTree // cumulative real attestation tree
+	// Snaps[i] is a snapshot of the store right after abstract entry i was
+	// recorded (only kept when KeepSnaps is set).
+	KeepSnaps bool
+	Snaps     []*memstore.Store
+	att       *attTree // cumulative real attestation tree
 }
 
 type attTree struct {
@@ -601,7 +605,8 @@ func New(ms *memstore.Store, w *World, policies []*PolicySpec) *Hist {
 
 // Fork returns an independent copy (store snapshot, copied abstract record).
 func (h *Hist) Fork() *Hist {
-	n := &Hist{MS: h.MS.Snapshot(), W: h.W, Policies: h.Policies, PolCount: h.PolCount, LastPol: h.LastPol}
+	n := &Hist{MS: h.MS.Snapshot(), W: h.W, Policies: h.Policies, PolCount: h.PolCount, LastPol: h.LastPol, KeepSnaps: h.KeepSnaps}
+	n.Snaps = append([]*memstore.Store(nil), h.Snaps...)
 	n.A = refver.History{Entries: append([]refver.Entry(nil), h.A.Entries...), Obj: h.A.Obj, PropagationStrict: h.A.PropagationStrict}
 	n.IDs = append([]githash.Hash(nil), h.IDs...)
 	n.Events = append([]Event(nil), h.Events...)
@@ -653,6 +658,18 @@ func (h *Hist) CurrentTip(ref string) string {
 
 // Apply performs the event on the real store and appends the abstract entry.
 func (h *Hist) Apply(ev Event) error {
+	if err := h.apply(ev); err != nil {
+		return err
+	}
+	if h.KeepSnaps {
+		for len(h.Snaps) < len(h.A.Entries) {
+			h.Snaps = append(h.Snaps, h.MS.Snapshot())
+		}
+	}
+	return nil
+}
+
+func (h *Hist) apply(ev Event) error {
 	switch ev.Kind {
 	case "push":
 		if err := world.Record(h.MS, ev.Ref, h.W.Hash(ev.Commit), keyOrNil(ev.Signer)); err != nil {
